@@ -7,7 +7,6 @@ package main
 import (
 	"fmt"
 	"strings"
-	"unicode/utf8"
 
 	psa "github.com/veraison/psatoken"
 )
@@ -85,11 +84,7 @@ func surfaceValidators(r *Run, rng *Rng, n int) {
 		}
 		var err error
 		pan, _ := safely(func() { err = psa.ValidateHashAlgID(c) })
-		if pan || !utf8.ValidString(c) {
-			r.ImplOnly("surface/hash-alg-id", false, fmt.Sprintf("validate-hash-alg x%s", hx([]byte(c))))
-		} else {
-			r.Case("surface/hash-alg-id", false, "hashalg x"+hx([]byte(c)), fmtErr(err))
-		}
+		r.ImplOnly("surface/hash-alg-id", false, fmt.Sprintf("validate-hash-alg x%s", hx([]byte(c))))
 		switch {
 		case pan:
 			r.Fail("validate-iff-conformant", "ValidateHashAlgID panicked")
